@@ -99,6 +99,12 @@ package llm
 //@     && (fullyLoaded ==> layerCount >= f.KV().BlockCount())
 //@     && (fullyLoaded && memoryLayerOutput > 0 && (opts.NumGPU < 0 || opts.NumGPU > f.KV().BlockCount()) ==> layerCount == f.KV().BlockCount() + 1)
 //@   assert-at return #3 : forall k int :: 0 <= k && k < len(gpus) && layerCounts[k] > 0 ==> estimate.GPUSizes[k] >= estimate.Graph
+// ---- coverage extension (appended) ----
+// What NewLlamaServer puts on the runner's command line is Layers (--n-gpu-layers, when the user set
+// no limit) and TensorSplit (--tensor-split, when not empty): an estimate that places nothing, and an
+// estimate for a single GPU, carry no split (NewLlamaServer falls back to the CPU with the same estimate).
+//@   ensures result.Layers == 0 ==> result.TensorSplit == ""
+//@   ensures len(gpus) <= 1 ==> result.TensorSplit == ""
 
 // "A model is declared to fit completely only if all of its layers were placed":
 // the two `return true` statements (return #1: no user limit, return #2: num_gpu set).
@@ -114,3 +120,9 @@ package llm
 //@   assert-at call EstimateGPULayers #1 : arg0 == gpus && arg1 == f && arg2 == projectors && arg3 == opts && arg4 == numParallel
 //@   assert-at return #1 : estimatedVRAM == estimate.VRAMSize
 //@   assert-at return #2 : estimatedVRAM == estimate.VRAMSize
+// (appended, coverage extension) discover.(GpuInfoList).ByLibrary is no longer trusted: its body is
+// verified (contracts/discover). What remains assumed is only the RANGE of the hardware figures the
+// groups carry - stated here, at the point where they enter the estimator, as an explicit assumption
+// (props assumptions): at most 128 GPUs, FreeMemory < 2^56, MinimumMemory < 2^50. That every group is
+// non-empty and no larger than the inventory is ByLibrary's proved postcondition.
+//@   assume-at after call ByLibrary #1 : len(allGpus) <= 128 && forall g int, k int :: 0 <= g && g < len(result) && 0 <= k && k < len(result[g]) ==> result[g][k].FreeMemory < (1 << 56) && result[g][k].MinimumMemory < (1 << 50)
